@@ -1,5 +1,7 @@
 """C11 - Elastic-constant representations are one tensor; rotation is a tensor rotation."""
+import copy
 import itertools
+import json
 
 import numpy as np
 from hypothesis import strategies as st
@@ -74,12 +76,236 @@ def _get(ec, name, shape):
     v = getattr(ec, name)
     require(isinstance(v, np.ndarray) and v.shape == shape and bool(np.all(np.isfinite(v))),
             lambda: '%s is not a finite %r array: %r' % (name, shape, v))
+    if _CTX is not None:
+        _CTX.keep(v, name, ec)
     return v
 
 
 def _close(got, exp, tol, what):
     err = float(np.abs(np.asarray(got, dtype=float) - np.asarray(exp, dtype=float)).max())
     require(err <= tol, lambda: '%s: differs by %.3g (tol %.3g)\nexpected\n%r\ngot\n%r' % (what, err, tol, np.asarray(exp), np.asarray(got)))
+
+
+# ----------------------------------------------------------------------------- result ledger, caller-side operations
+# Everything a judged call hands OUT (arrays of the getters, ElasticConstants objects returned by transform /
+# normalized_as, data models) is entered in the ledger of the case with a snapshot taken at return time (and judged by the
+# oracles then); every container handed IN (arrays in any layout / dtype, nested lists, data models) with a snapshot taken
+# before the call.  At the end of the case - after all the later calls on the same and on other objects - the results must
+# still be what they were, bit for bit, and the inputs must be what the caller handed in.  Then (key 'caller') the caller
+# does what callers do with their own data: overwrites the arrays / lists / models it handed in (in place), builds a
+# new object from the overwritten container, re-defines the objects it was handed; the objects judged before, and the
+# arrays they returned, must not move.  (The arrays returned by the getters are the exception stated in ASSUMPTIONS:
+# writing to them is judged by `scribble` under copy-or-live-handle semantics.)
+
+_CTX = None
+_PREV = []           # the arrays handed out in the previous case of this process: judged once more after the next case ran
+
+
+def _bits(a):
+    return (a.dtype.str, a.shape, a.tobytes())
+
+
+def _snap_input(x):
+    if isinstance(x, np.ndarray):
+        return ('a',) + _bits(x) + (bool(x.flags.writeable), x.strides)
+    if hasattr(x, 'json') and hasattr(x, 'find'):
+        return ('m', x.json())
+    return ('o', copy.deepcopy(x))
+
+
+def _same_input(x, snap):
+    if snap[0] == 'a':
+        return ('a',) + _bits(x) + (bool(x.flags.writeable), x.strides) == snap
+    if snap[0] == 'm':
+        return x.json() == snap[1]
+    return _eq_nested(x, snap[1])
+
+
+def _eq_nested(a, b):
+    if isinstance(a, (list, tuple)):
+        return type(a) is type(b) and len(a) == len(b) and all(_eq_nested(x, y) for x, y in zip(a, b))
+    if isinstance(a, dict):
+        return isinstance(b, dict) and list(a) == list(b) and all(_eq_nested(a[k], b[k]) for k in a)
+    return type(a) is type(b) and (a == b or (a != a and b != b))
+
+
+def _rep_to_cij(route, x):
+    """my own reading of a representation: the Voigt stiffness it describes"""
+    x = np.array(x, dtype=float)
+    if route == 'Cij':
+        return x
+    if route == 'Cij9':
+        return x[:6, :6]
+    if route == 'Cijkl':
+        return el.tensor_to_voigt(x)
+    if route == 'Sij':
+        return np.linalg.inv(x)
+    return np.linalg.inv(el.compliance_tensor_to_voigt(x))
+
+
+def _double_nested(x):
+    with np.errstate(all='ignore'):
+        for i, v in enumerate(x):
+            if isinstance(v, list):
+                _double_nested(v)
+            else:
+                x[i] = v * 2
+    return x
+
+
+class _Ctx:
+    def __init__(self, case):
+        self.caller = bool(case.get('caller'))
+        self.results = []        # [array, snapshot, where, id(owner), name]
+        self.inputs = []         # [container, snapshot, where, route]
+        self.objects = {}        # id(object) -> [object, snapshot of its Cij, what]
+        self.outs = []           # objects handed out by transform / normalized_as (documented: a new object)
+        self.models = []         # [model handed out, json snapshot, where]
+        self.owners = set()
+
+    # -- entering
+    def keep(self, v, name, owner):
+        if isinstance(v, np.ndarray):
+            self.results.append([v, v.copy(), name, id(owner), name])
+            self.owners.add(id(owner))
+        return v
+
+    def resnap(self, v):
+        for r in self.results:
+            if r[0] is v:
+                r[1] = v.copy()
+
+    def track(self, ec, what, out=False):
+        self.objects[id(ec)] = [ec, np.array(ec.Cij), what]
+        if out and not any(o is ec for o in self.outs):
+            self.outs.append(ec)
+        return ec
+
+    def handed_in(self, x, where, route=None):
+        if isinstance(x, (np.ndarray, list, tuple, dict)) or hasattr(x, 'json'):
+            if not any(r[0] is x for r in self.inputs):
+                self.inputs.append([x, _snap_input(x), where, route])
+        return x
+
+    def model_out(self, m, where):
+        self.models.append([m, m.json(), where])
+        return m
+
+    # -- judging
+    def inputs_unchanged(self):
+        for x, snap, where, _ in self.inputs:
+            require(_same_input(x, snap), lambda: 'the %s handed in as %s was changed by the call: before %r, now %r'
+                    % (type(x).__name__, where, snap[1:], _snap_input(x)[1:]))
+
+    def verify(self, when):
+        for v, snap, where, _, _ in self.results:
+            require(_bits(v) == _bits(snap), lambda: 'the array returned by %s earlier in the case is not what it was at return time '
+                    '(%s):\nthen\n%r\nnow\n%r' % (where, when, snap, v))
+        for ec, snap, what in self.objects.values():
+            cur = np.asarray(ec.Cij)
+            require(cur.shape == snap.shape and _bits(cur) == _bits(snap), lambda: 'Cij of %s is not what it was when the object was judged '
+                    '(%s):\nthen\n%r\nnow\n%r' % (what, when, snap, cur))
+        for m, snap, where in self.models:
+            require(m.json() == snap, lambda: 'the data model returned by %s changed (%s)' % (where, when))
+
+    def sharing(self):
+        res = self.results
+        for i in range(len(res)):
+            a = res[i]
+            for j in range(i + 1, len(res)):
+                b = res[j]
+                if a[0] is not b[0] and (a[3], a[4]) != (b[3], b[4]) and np.may_share_memory(a[0], b[0]):
+                    raise Violation('two arrays handed out by different calls share memory: %s / %s' % (a[2], b[2]))
+            for x, _, where, _ in self.inputs:
+                if isinstance(x, np.ndarray) and x is not a[0] and np.may_share_memory(a[0], x):
+                    raise Violation('the array returned by %s shares memory with the array handed in as %s' % (a[2], where))
+
+    def finish(self, labels):
+        self.verify('after the later calls of the case')
+        self.inputs_unchanged()
+        self.sharing()
+        if len(self.owners) >= 2:
+            labels.add('ledger')
+        if not self.caller:
+            return
+        import atomman as am
+        labels.add('caller')
+        reuse = []
+        for rec in self.inputs:
+            x, _, where, route = rec
+            if isinstance(x, np.ndarray) and x.flags.writeable and x.dtype.kind in 'fiu' and x.size:
+                with np.errstate(all='ignore'):
+                    if x.dtype.kind == 'f':
+                        big = float(np.abs(x.astype(float)).max())
+                        up = big * 2 < float(np.finfo(x.dtype).max) / 4
+                        x *= (2 if up else 0.5)
+                    elif int(np.abs(x.astype(object)).max()) * 2 <= int(np.iinfo(x.dtype).max):
+                        x *= 2
+                    else:
+                        x //= 2
+                self.resnap(x)
+                labels.add('caller_overwrote')
+            elif isinstance(x, list) and x and isinstance(x[0], list):
+                _double_nested(x)
+                labels.add('caller_overwrote')
+            elif hasattr(x, 'json') and route == 'model':
+                term = x.find('elastic-constants')['Cij']
+                term['value'] = [v * 2 for v in term['value']]
+                labels.add('caller_overwrote')
+            else:
+                continue
+            rec[1] = _snap_input(x)
+            if route in REPS and not any(r[0] is x for r in self.results):
+                reuse.append((route, x, where))
+        for ec in self.outs:
+            # an object handed out is the caller's: re-defined through its public setter
+            ec.Cij = np.diag([3.0, 2.0, 5.0, 1.0, 1.5, 0.5])
+            self.objects[id(ec)][1] = np.array(ec.Cij)
+            labels.add('caller_redefined_out')
+        for m in self.models:
+            term = m[0].find('elastic-constants')['Cij']
+            term['value'] = [0.0 for _ in term['value']]
+            m[1] = m[0].json()
+        self.verify('after the caller overwrote what it had handed in and re-defined what it was handed')
+        for route, x, where in reuse[:2]:
+            exp = _rep_to_cij(route, x)
+            if not bool(np.all(np.isfinite(exp))) or float(exp.max()) <= 0 or float(np.linalg.cond(exp)) > 1e6:
+                continue
+            ec = am.ElasticConstants(**{route: x})
+            _close(ec.Cij, exp, 1e-8 * float(np.abs(exp).max()), 'object built from the container handed in as %s after the caller '
+                   'overwrote it in place: Cij against my own reading of its content' % where)
+            labels.add('caller_reused')
+        if reuse:
+            self.verify('after the overwritten containers were used for new objects')
+        self.inputs_unchanged()
+
+
+def _ledgered(fn):
+    """the oracle under a ledger; the arrays of the previous case are judged once more first (a result must not depend on
+    what the process computes afterwards - such a failure needs the earlier case and will not replay alone)"""
+    def oracle(case):
+        global _CTX
+        _CTX = _Ctx(case)
+        try:
+            labels = set(fn(case))
+            _CTX.finish(labels)
+            prev = list(_PREV)
+            _PREV[:] = [(r[0], r[1], r[2]) for r in _CTX.results[-12:]]
+            for v, snap, where in prev:
+                require(_bits(v) == _bits(snap), lambda: 'an array returned by %s in the PREVIOUS case of this process changed while this case '
+                        'ran (needs that history: will not show when this case is replayed alone):\nthen\n%r\nnow\n%r' % (where, snap, v))
+            return labels
+        finally:
+            _CTX = None
+    oracle.__name__ = fn.__name__
+    oracle.__doc__ = fn.__doc__
+    return oracle
+
+
+def _track(ec, what, out=False):
+    if _CTX is not None:
+        _CTX.track(ec, what, out)
+    return ec
 
 
 KEY_THR = _key('transform:entry-at-zeroing-threshold')
@@ -95,8 +321,13 @@ def _at_threshold(C, tol=1e-8, width=1e-5):
 def _transform(ec, axes, expected, what):
     """ec.transform(axes); the empty AssertionError of the Cijkl setter is the listed finding when an entry of the
     expected result sits on the zeroing threshold (symmetry-equivalent entries are zeroed independently)"""
+    if _CTX is not None:
+        _CTX.handed_in(axes, 'the axes of ' + what)
     try:
-        return ec.transform(axes)
+        tr = ec.transform(axes)
+        if _CTX is not None:
+            _CTX.inputs_unchanged()
+        return _track(tr, 'the object returned by ' + what, out=True)
     except AssertionError as e:
         if str(e) == '' and _at_threshold(expected):
             raise Violation('%s raised AssertionError() from the Cijkl setter: an entry of the rotated tensor equals '
@@ -168,7 +399,12 @@ def check_reps(ec, mine, cond, floor, eps_t, what, order=0, scribble=None):
     # the same object looked at a second time
     if scribble is not None:
         got[scribble] *= 2.0
-    return _reread(ec, mine, cmax, tolC, tolS, scribble, what)
+        if _CTX is not None:
+            _CTX.resnap(got[scribble])
+    k = _reread(ec, mine, cmax, tolC, tolS, scribble, what)
+    if k != 1.0:
+        _track(ec, what)                  # live-handle semantics: the object follows what the caller wrote
+    return k
 
 
 # ----------------------------------------------------------------------------- input forms, object histories
@@ -184,10 +420,131 @@ def _tuples(x):
     return tuple(_tuples(v) for v in x) if isinstance(x, list) else x
 
 
-def _form(x, form):
+# storage dtypes other than float64 / int64 (key 'dt' of a case): an orthogonal axis to the layout forms above
+DTYPES = {'f32': '<f4', 'f16': '<f2', 'bf8': '>f8', 'bf4': '>f4', 'i8': 'int8', 'i16': 'int16', 'i32': 'int32', 'u8': 'uint8',
+          'u16': 'uint16', 'u32': 'uint32', 'u64': 'uint64', 'bi2': '>i2', 'bi4': '>i4', 'bi8': '>i8', 'bool': 'bool'}
+FLOAT_NARROW = ('f32', 'f16', 'bf8', 'bf4')
+# largest constant of a tensor fitted to an integer dtype = the limit of the dtype (64 bit: the largest power of two, all
+# numbers of a case are Python floats)
+INT_LIMIT = {'i8': 127, 'i16': 32767, 'i32': 2 ** 31 - 1, 'u8': 255, 'u16': 65535, 'u32': 2 ** 32 - 1, 'u64': 2 ** 63,
+             'bi2': 32767, 'bi4': 2 ** 31 - 1, 'bi8': 2 ** 62, 'bool': 1}
+_dt = st.one_of(st.none(), st.none(), st.none(), st.none(), st.none(),
+                st.sampled_from(('f32', 'f32', 'f16', 'f16', 'bf8', 'bf4')), st.sampled_from(('f32', 'f16', 'bf8', 'bf4', 'f32')),
+                st.sampled_from(('i8', 'i8', 'i16', 'i16', 'i32', 'u8', 'u8', 'u16', 'u32', 'u64', 'bi2', 'bi4', 'bi8', 'bool')))
+C_ROUTES = ('Cij', 'Cij9', 'Cijkl')
+IDENTITY_T = {'kind': 'named', 'system': 'cubic', 'C': {'C11': 1.0, 'C12': 0.0, 'C44': 1.0}, 'whole': True, 'fit': 'bool'}
+
+
+def _fit(T, dt, route):
+    """(strategy side) a tensor whose C-type representation can be stored in the integer dtype dt: whole-number constants
+    proportional to T's with the largest equal to the limit of the dtype; T itself when dt is no integer dtype, the route
+    hands in no stiffness array, or the rounded set is not admissible"""
+    if dt not in INT_LIMIT or route not in C_ROUTES:
+        return T
+    if dt == 'bool':
+        return IDENTITY_T
+    F = g.fitted_whole(T, INT_LIMIT[dt], nonneg=dt[0] == 'u')
+    if F is None:
+        return T
+    F['fit'] = dt
+    return F
+
+
+def _cast(a, dt):
+    """the float64 array a stored in dtype dt, or None when that does not hold every number exactly"""
+    if dt is None:
+        return None
+    t = np.dtype(DTYPES[dt])
+    if not bool(np.all(np.isfinite(a))):
+        return None
+    if t.kind in 'iub':
+        lo, hi = (0, 1) if t.kind == 'b' else (int(np.iinfo(t).min), int(np.iinfo(t).max))
+        if not bool(np.all(a == np.round(a))) or float(a.min()) < lo or float(a.max()) > hi:
+            return None
+        if t.kind != 'b' and hi > 2 ** 53 and float(a.max()) >= float(hi):
+            return None
+    with np.errstate(all='ignore'):
+        b = a.astype(t)
+        back = b.astype(np.float64)
+    return b if np.array_equal(back, a) else None
+
+
+def _scalars(b):
+    """nested list of numpy scalars of the array's dtype"""
+    return [_scalars(x) for x in b] if b.ndim > 1 else list(b)
+
+
+def _quantise(C6, route, dt):
+    """the tensor that the route's representation of C6 describes after it was rounded to the float dtype dt (so that the
+    array handed in holds exactly representable values); C6 itself when the rounded tensor is not a good stiffness any more
+    (float16: range 6e-5 .. 6e4, 11 bits) - then the dtype falls back to float32 / is not used"""
+    t = np.dtype(DTYPES[dt])
+    tiny = float(np.finfo(t).tiny)
+    with np.errstate(all='ignore'):
+        if route in C_ROUTES:
+            q = C6.astype(t).astype(np.float64)
+        else:
+            S = np.linalg.inv(C6)
+            S = (S + S.T) / 2
+            Sq = (S / 4).astype(t).astype(np.float64) * 4           # the smallest numbers handed in are S/4 (Sijkl)
+            if not bool(np.all(np.isfinite(Sq))) or bool(np.any((Sq != 0) & (np.abs(Sq) / 4 < tiny))) or abs(np.linalg.det(Sq)) == 0:
+                return None
+            q = np.linalg.inv(Sq)
+            q = (q + q.T) / 2
+    if not bool(np.all(np.isfinite(q))) or bool(np.any((q != 0) & (np.abs(q) < tiny))):
+        return None
+    w = np.linalg.eigvalsh(q)
+    if not w[0] >= 1e-3 * w[-1]:
+        return None
+    return q
+
+
+def _prepare(T, route, dt):
+    """(C6, mine, dt used): my Voigt matrix of the case and my five representations of it; for a float storage dtype the
+    tensor is the one that the handed-in representation describes after rounding to that dtype"""
+    C6 = g.cij(T)
+    if dt in FLOAT_NARROW and route in REPS:
+        for d in ((dt, 'f32') if dt == 'f16' else (dt,)):
+            q = _quantise(C6, route, d)
+            if q is not None:
+                mine = mine_of(q)
+                if route in ('Sij', 'Sijkl'):
+                    with np.errstate(all='ignore'):
+                        S = np.linalg.inv(C6)
+                        S = (S + S.T) / 2
+                        Sq = (S / 4).astype(np.dtype(DTYPES[d])).astype(np.float64) * 4
+                    mine['Sij'], mine['Sijkl'] = Sq, el.compliance_voigt_to_tensor(Sq)
+                return q, mine, d
+        return C6, mine_of(C6), None
+    return C6, mine_of(C6), dt
+
+
+def _form(x, form, dt=None, labels=None, prefix='in_'):
     """(fresh object holding the numbers x in one of the array-like forms, name of the form used).  The integer forms
-    need whole numbers (below 2**53) and fall back to array / list otherwise."""
+    need whole numbers (below 2**53) and fall back to array / list otherwise.  dt: the storage dtype (DTYPES) - used when
+    it holds every number exactly (then the label <prefix>dt_<dt> is set), for the list forms as numpy scalars."""
     a = np.array(x, dtype=float)
+    b = _cast(a, dt)
+    if b is not None:
+        if labels is not None:
+            labels.update({prefix + 'dt_' + dt, prefix + 'dt'})
+        if form in ('int', 'array'):
+            return b, 'array'
+        if form in ('intlist', 'list'):
+            return _scalars(b), 'list' 
+        if form == 'tuple':
+            return _tuples(_scalars(b)), form
+        if form == 'forder':
+            return np.asfortranarray(b), form
+        if form == 'strided':
+            big = np.zeros(tuple(2 * n for n in b.shape), dtype=b.dtype)
+            view = big[tuple(slice(None, None, 2) for _ in b.shape)]
+            view[...] = b
+            return view, form
+        if form == 'readonly':
+            b.setflags(write=False)
+            return b, form
+        return b, 'array'
     if form in ('int', 'intlist'):
         if bool(np.all(a == np.round(a))) and float(np.abs(a).max()) < 2.0 ** 53:
             a = a.astype(np.int64)
@@ -210,9 +567,39 @@ def _form(x, form):
     return a, 'array'
 
 
+# numpy scalars of other types for named constants.  The docstrings say "float"; numpy.float64 and whole numbers as int
+# are what callers also pass (ASSUMPTIONS).  Narrower numpy scalars compute IN THEIR OWN TYPE inside the constructors
+# (2*C66 + C12, (C11 - C12)/2, -C14): the result is exact as long as those stay representable, so the values are whole
+# numbers up to a quarter of the type's range (float32: 2**22, float16: 500).  Kept out, as outside the documented "float":
+# unsigned scalars (-C14 of a numpy.uint16 wraps around) and the isotropic pair formulas (products of moduli: float32
+# arithmetic there is float32-accurate, which is all a caller of float32 numbers can ask for).
+NUM_NARROW = {'npf32': (np.float32, 2 ** 22), 'npf16': (np.float16, 500), 'npi32': (np.int32, 2 ** 29), 'npi16': (np.int16, 8000)}
+_num2 = st.one_of(st.sampled_from(('npfloat', 'float', 'int', 'npint', 'float', 'npfloat')),
+                  st.sampled_from(('npfloat', 'float', 'int', 'npint', 'float', 'npfloat')),
+                  st.sampled_from(('npfloat', 'float', 'int', 'npint', 'float', 'npfloat')),
+                  st.sampled_from(tuple(NUM_NARROW)))
+
+
+def _fit_num(T, num):
+    """(strategy side) whole-number constants within the range of the narrow scalar type"""
+    if num not in NUM_NARROW or T['kind'] != 'named' or T['system'] == 'isotropic':
+        return T
+    F = g.fitted_whole(T, NUM_NARROW[num][1])
+    if F is None:
+        return T
+    F['fit'] = num
+    return F
+
+
 def _number(v, num):
-    """a named constant as Python float / numpy.float64 / (whole numbers up to 1e6 only) Python int / numpy.int64"""
+    """a named constant as Python float / numpy.float64 / (whole numbers up to 1e6 only) Python int / numpy.int64 /
+    (NUM_NARROW) numpy.float32, float16, int32, int16"""
     v = float(v)
+    if num in NUM_NARROW:
+        t, lim = NUM_NARROW[num]
+        if abs(v) <= lim and (v.is_integer() or (t in (np.float32, np.float16) and (2 * v).is_integer())):
+            return t(v), num
+        num = 'float'
     if num in ('int', 'npint'):
         if v.is_integer() and abs(v) <= 1e6:
             return (int(v), 'int') if num == 'int' else (np.int64(v), 'npint')
@@ -237,13 +624,13 @@ def _info(C6, mine):
             'tolS': ((4e-8 if floor else 0.0) * cond + 1e-11 * cond) * smax}
 
 
-def _payload(T, C6, mine, route, form, formidx, num, labels):
+def _payload(T, C6, mine, route, form, formidx, num, labels, dt=None):
     """(route, argument) defining the tensor of case T: one of the five arrays in the drawn input form, the named
     constants of its crystal system (the 21 triclinic ones for a generic tensor), or a data model"""
     if route in REPS:
         if T.get('whole') and form in ('array', 'list'):
             form = 'int' if form == 'array' else 'intlist'      # whole-number tensors: integer-typed ndarray / list of ints
-        arg, used = _form(mine[route], form)
+        arg, used = _form(mine[route], form, dt, labels)
         labels.add('in_' + used)
         return route, arg
     if route == 'model':
@@ -259,20 +646,27 @@ def _define(ec, route, arg, what):
     """(re-)define an object: ec None -> the constructor; else the public setter / crystal-system method / model().
     The Cij setter writes into the array it is given (zeroing of small terms): a read-only array is the listed finding."""
     import atomman as am
+    if _CTX is not None:
+        _CTX.handed_in(arg, '%s of %s' % (route if route in REPS or route == 'model' else 'keywords', what), route)
     try:
         if route in REPS:
             if ec is None:
-                return am.ElasticConstants(**{route: arg})
-            setattr(ec, route, arg)
+                ec = am.ElasticConstants(**{route: arg})
+            else:
+                setattr(ec, route, arg)
         elif route == 'model':
             if ec is None:
-                return am.ElasticConstants(model=arg)
-            ec.model(model=arg)
+                ec = am.ElasticConstants(model=arg)
+            else:
+                ec.model(model=arg)
         else:
             if ec is None:
-                return am.ElasticConstants(**arg)           # system chosen by the number of keywords
-            getattr(ec, route)(**arg)
-        return ec
+                ec = am.ElasticConstants(**arg)           # system chosen by the number of keywords
+            else:
+                getattr(ec, route)(**arg)
+        if _CTX is not None:
+            _CTX.inputs_unchanged()
+        return _track(ec, what)
     except ValueError as e:
         if route in ('Cij', 'Cij9') and isinstance(arg, np.ndarray) and not arg.flags.writeable and 'read-only' in str(e):
             raise Violation('%s: %s given as a read-only float64 array raised ValueError(%s): the Cij setter zeroes small '
@@ -361,11 +755,11 @@ def _used(pre, labels):
     return ec
 
 
-def _build(case, T, C6, mine, route, labels, what):
-    """the object under judgement: fresh, or a used one re-defined through route"""
+def _build(case, T, C6, mine, route, labels, what, dt=None):
+    """the object under judgement: fresh, or a used one re-defined through route (dt: storage dtype, see _prepare)"""
     ec = _used(case.get('pre'), labels)
     form = case.get('inform', 'list' if case.get('aslist') else 'array')
-    route, arg = _payload(T, C6, mine, route, form, case.get('form', 0), case.get('num', 'float'), labels)
+    route, arg = _payload(T, C6, mine, route, form, case.get('form', 0), case.get('num', 'float'), labels, dt)
     labels.add('route_' + (route if route in REPS or route == 'model' else 'named'))
     return _define(ec, route, arg, what)
 
@@ -378,36 +772,42 @@ _bool = st.booleans()
 
 _order = st.integers(0, 119)
 _scribble = st.sampled_from((None, None, None) + REPS)
-_tensors = g.tensors(variants=True)
+_tensors_old = g.tensors(variants=True)
+# 8/10 the mixture of the earlier rounds, 1/10 near-threshold variants (almost a higher symmetry), 1/10 crystal-system
+# tensors with exactly relabelled axes
+_tensors = st.one_of(_tensors_old, _tensors_old, _tensors_old, _tensors_old, _tensors_old, _tensors_old, _tensors_old, _tensors_old,
+                     g.almost_tensors(), g.perm_tensors())
+_caller = st.sampled_from((0, 1, 1))
 
 
 @st.composite
 def reps_cases(draw):
-    return {'T': draw(_tensors), 'via': draw(_rep), 'then': draw(_rep), 'inform': draw(_inform),
-            'strain': draw(g.strains()), 'pre': draw(pres()), 'order': draw(_order), 'scribble': draw(_scribble)}
+    via, dt = draw(_rep), draw(_dt)
+    return {'T': _fit(draw(_tensors), dt, via), 'via': via, 'then': draw(_rep), 'inform': draw(_inform), 'dt': dt,
+            'strain': draw(g.strains()), 'pre': draw(pres()), 'order': draw(_order), 'scribble': draw(_scribble),
+            'caller': draw(_caller)}
 
 
 def oracle_reps(case):
     import atomman as am
     T = case['T']
-    C6 = g.cij(T)
+    via, then = case['via'], case['then']
+    C6, mine, dt = _prepare(T, via, case.get('dt'))
     labels = g.labels_of(T)
     w = np.linalg.eigvalsh(C6)
     cond = float(w[-1] / w[0])
     floor = _floor_hit(C6, 2e-9)
-    mine = mine_of(C6)
     eps_t = np.array(case['strain'], dtype=float)
-    via, then = case['via'], case['then']
-    ec = _build(case, T, C6, mine, via, labels, 'object defined by my %s' % via)
+    ec = _build(case, T, C6, mine, via, labels, 'object defined by my %s' % via, dt)
     scribble = case.get('scribble')
     k = check_reps(ec, mine, cond, floor, eps_t, 'built from my %s' % via, case.get('order', 0), scribble)
     if scribble is not None:
         labels.add('scribble')
     if k == 1.0:
         # atomman's own output of another representation fed back in
-        out = getattr(ec, then)
+        out = _get(ec, then, SHAPES[then])
         listed = case.get('inform', 'list' if case.get('aslist') else 'array') in ('list', 'tuple', 'intlist')
-        ec2 = am.ElasticConstants(**{then: out.tolist() if listed else out})
+        ec2 = _define(None, then, out.tolist() if listed else out, 'object rebuilt from the %s that atomman returned' % then)
         check_reps(ec2, mine, cond, floor, eps_t, 'built from my %s, rebuilt from its %s' % (via, then))
         _close(ec2.Cij, ec.Cij, 1e-8 * np.abs(C6).max(), 'round trip %s -> %s -> Cij' % (via, then))
     labels.update({'via_' + via, 'then_' + then, 'list' if 'in_list' in labels or 'in_tuple' in labels or 'in_intlist' in labels else 'array'})
@@ -424,6 +824,13 @@ def oracle_reps(case):
 
 _how = st.sampled_from(['init', 'init', 'method', 'method', 'reuse', 'reuse'])
 _named_v = g.named(variants=True)
+_named_almost = g.almost_tensors().filter(lambda T: T['kind'] == 'named')
+_named_t = st.one_of(_named_v, _named_v, _named_v, _named_v, _named_v, _named_v, _named_v, _named_v, _named_v, _named_almost)
+# axes that miss orthogonality by 1e-13 ... 1e-10 (axes_check documents its tolerance: 1e-8; stay a factor 100 inside it):
+# [i, j, e]: row i gets e |row i| / |row j| times row j added
+_skew = st.one_of(st.none(), st.none(), st.none(), st.none(), st.none(), st.none(), st.none(),
+                  st.tuples(st.integers(0, 2), st.integers(1, 2), st.integers(-1300, -1000)).map(
+                      lambda t: [t[0], (t[0] + t[1]) % 3, 10.0 ** (t[2] / 100.0)]))
 _formidx = st.integers(0, 7)
 _hexangle = st.one_of(gens.nice(0.0, 360.0, 2), st.sampled_from([30.0, 45.0, 90.0, 17.0]))
 _scale = st.one_of(st.none(), st.none(), st.lists(st.sampled_from([1.0, 2.0, 0.5, 3.7, 0.01, 250.0]), min_size=3, max_size=3))
@@ -431,21 +838,38 @@ _scale = st.one_of(st.none(), st.none(), st.lists(st.sampled_from([1.0, 2.0, 0.5
 
 @st.composite
 def named_cases(draw):
-    T = draw(_named_v)
+    T = draw(_named_t)
     how = draw(_how)
-    return {'T': T, 'form': draw(_formidx), 'how': how, 'angle': draw(_hexangle), 'num': draw(_num),
-            'scale': draw(_scale), 'axform': draw(_inform), 'pre': draw(pres()) if how == 'reuse' else None}
+    num = draw(_num2)
+    return {'T': _fit_num(T, num), 'form': draw(_formidx), 'how': how, 'angle': draw(_hexangle), 'num': num,
+            'scale': draw(_scale), 'axform': draw(_inform), 'pre': draw(pres()) if how == 'reuse' else None,
+            'axdt': draw(_dt), 'skew': draw(_skew), 'caller': draw(_caller)}
 
 
-def _axes(R, scale, form, labels=None):
+CYCLIC = [[0, 1, 0], [0, 0, 1], [1, 0, 0]]
+
+
+def _rotmat(spec):
+    """rotation of a case: [axis, angle in degrees] or ['P', k] = the k-th proper signed permutation matrix, exactly"""
+    if spec[0] == 'P':
+        return np.array(g.SIGNED_PERMS[spec[1] % 24], dtype=float)
+    return el.rotation_matrix(*spec)
+
+
+def _axes(R, scale, form, labels=None, dt=None, skew=None):
     """axes argument of transform: rows of R, optionally of other lengths, in one of the array-like forms (old cases:
-    form is the boolean 'aslist')"""
+    form is the boolean 'aslist'), stored in dtype dt where that is exact; skew: see _skew"""
     A = np.array(R, dtype=float)
     if scale is not None:
         A = A * np.array(scale, dtype=float)[:, None]
+    if skew is not None:
+        i, j, e = skew
+        A[i] = A[i] + e * (np.linalg.norm(A[i]) / np.linalg.norm(A[j])) * A[j]
+        if labels is not None:
+            labels.add('axes_almost_orth')
     if form is True or form is False or form is None:
         form = 'list' if form else 'array'
-    arg, used = _form(A, form)
+    arg, used = _form(A, form, dt, labels, 'axes_')
     if labels is not None:
         labels.add('axes_' + used)
     return arg
@@ -463,21 +887,26 @@ def oracle_named(case):
     kw = _numbers(g.kwargs_of(T, form), case.get('num', 'npfloat' if case.get('npfloat') else 'float'), labels)
     labels.update({'how_' + case['how'], 'form_' + form, 'nkw%d' % len(kw)})
     if case['how'] == 'init':
-        ec = am.ElasticConstants(**kw)
+        ec = _define(None, system, kw, 'object built from %s constants' % system)
     elif case['how'] == 'method' or case.get('pre') is None:
-        ec = am.ElasticConstants()
-        getattr(ec, system)(**kw)
+        ec = _define(am.ElasticConstants(), system, kw, 'empty object defined by the %s method' % system)
     else:
-        ec = _used(case['pre'], labels)             # an object with a past, re-defined by the crystal-system method
-        getattr(ec, system)(**kw)
+        # an object with a past, re-defined by the crystal-system method
+        ec = _define(_used(case['pre'], labels), system, kw, 'used object re-defined by the %s method' % system)
     got = _get(ec, 'Cij', (6, 6))
     _close(got, C6, 1e-8 * cmax, '%s constants %r: Cij against my placement table' % (system, sorted(kw)))
     consts = T['C']
-    for name, R in el.symmetry_generators(system, consts, case['angle']):
+    generators = el.symmetry_generators(system, consts, case['angle'])
+    if system == 'cubic':
+        generators = generators + [('3[111] as an exact cyclic relabelling', np.array(CYCLIC, dtype=float)),
+                                   ('2[110] as an exact relabelling', np.array([[0, 1, 0], [1, 0, 0], [0, 0, -1]], dtype=float))]
+        labels.add('exact_relabelling')
+    for name, R in generators:
         # my own rotation of atomman's matrix
         _close(el.rotate_voigt(got, R), got, 1e-8 * cmax, '%s tensor under its symmetry rotation %s (my rotation)' % (system, name))
         # atomman's rotation of atomman's matrix
-        tr = _transform(ec, _axes(R, case['scale'], case.get('axform', case.get('aslist')), labels), got, 'transform(%s)' % name)
+        tr = _transform(ec, _axes(R, case['scale'], case.get('axform', case.get('aslist')), labels, case.get('axdt'), case.get('skew')),
+                        got, 'transform(%s)' % name)
         _close(tr.Cij, got, 1e-7 * cmax, '%s tensor under its symmetry rotation %s (transform)' % (system, name))
     _close(_get(ec, 'Cijkl', (3, 3, 3, 3)), el.voigt_to_tensor(C6), 1e-8 * cmax, '%s constants %r: Cijkl against my own map' % (system, sorted(kw)))
     if case['scale'] is not None:
@@ -497,15 +926,16 @@ KEY_ME = _key('isotropic:M-E-pair-double-root-npfloat')
 
 
 _iso_v = g.isotropic(variants=True)
+_rot_iso = st.one_of(g.rot_specs(), g.rot_specs(), g.rot_specs(), g.rot_specs(), g.rot_specs(), g.rot_specs(), g.near_sym_rots(), g.perm_rots())
 
 
 @st.composite
 def isotropic_cases(draw):
     T = draw(_iso_v)
     reuse = draw(_bool)
-    return {'T': T, 'alias': [draw(_bool) for _ in range(3)], 'npfloat': draw(_bool), 'rot': draw(g.rot_specs()),
+    return {'T': T, 'alias': [draw(_bool) for _ in range(3)], 'npfloat': draw(_bool), 'rot': draw(_rot_iso),
             'order': draw(_bool), 'num': draw(_num), 'reuse': reuse, 'pre': draw(pres()) if reuse else None,
-            'look': draw(st.integers(0, 2 ** 15 - 1)) if reuse else 0}
+            'look': draw(st.integers(0, 2 ** 15 - 1)) if reuse else 0, 'caller': draw(_caller)}
 
 
 def oracle_isotropic(case):
@@ -572,7 +1002,7 @@ def oracle_isotropic(case):
             _close(_get(ec, 'Cijkl', (3, 3, 3, 3)), C4, tol, 'isotropic pair %r (E=%r, nu=%r): Cijkl of the re-defined object' % (tuple(names), E, nu))
         if first is None:
             first = ec
-    R = el.rotation_matrix(*case['rot'])
+    R = _rotmat(case['rot'])
     _close(_transform(first, R, C6, 'transform(%r) of the isotropic tensor' % (case['rot'],)).Cij, C6, 1e-7 * cmax, 'isotropic tensor under rotation %r' % (case['rot'],))
     _close(_get(first, 'Cijkl', (3, 3, 3, 3)), C4, 1e-8 * cmax, 'Cijkl of the isotropic tensor')
     if deferred is not None:
@@ -593,7 +1023,9 @@ def oracle_isotropic(case):
 SPECIAL_ROTS = [[[0, 0, 1], 90.0], [[1, 0, 0], 90.0], [[0, 1, 0], 90.0], [[1, 1, 1], 120.0], [[0, 0, 1], 120.0],
                 [[1, 0, 0], 180.0], [[0, 1, 0], 180.0], [[0, 0, 1], 180.0], [[0, 0, 1], 60.0], [[0, 0, 1], 0.0],
                 [[1, 1, 0], 180.0], [[0, 0, 1], 33.0]]
-_rot = st.one_of(g.rot_specs(), g.rot_specs(), g.rot_specs(), st.sampled_from(SPECIAL_ROTS))
+_rot_old = st.one_of(g.rot_specs(), g.rot_specs(), g.rot_specs(), st.sampled_from(SPECIAL_ROTS))
+# 8/10 as before, 1/10 a symmetry operation missed by 1e-10 ... 1e-2 degrees, 1/10 an exact signed permutation of the axes
+_rot = st.one_of(_rot_old, _rot_old, _rot_old, _rot_old, _rot_old, _rot_old, _rot_old, _rot_old, g.near_sym_rots(), g.perm_rots())
 STYLES = (('bulk', 'Voigt'), ('bulk', 'Reuss'), ('bulk', 'Hill'), ('shear', 'Voigt'), ('shear', 'Reuss'), ('shear', 'Hill'))
 
 
@@ -604,20 +1036,27 @@ _tol = st.sampled_from([None, None, 1e-12, 1e-10, 1e-6, 1e-5])
 
 @st.composite
 def rotate_cases(draw):
-    return {'T': draw(_tensors), 'R1': draw(_rot), 'R2': draw(_rot), 'scale': draw(_scale), 'axform': draw(_inform),
-            'strain': draw(g.strains()), 'pre': draw(pres()), 'route': draw(_route), 'inform': draw(_inform),
-            'form': draw(_formidx), 'num': draw(_num), 'tol': draw(_tol)}
+    route, dt = draw(_route), draw(_dt)
+    return {'T': _fit(draw(_tensors), dt, route), 'R1': draw(_rot), 'R2': draw(_rot), 'scale': draw(_scale), 'axform': draw(_inform),
+            'strain': draw(g.strains()), 'pre': draw(pres()), 'route': route, 'inform': draw(_inform), 'dt': dt,
+            'form': draw(_formidx), 'num': draw(_num), 'tol': draw(_tol), 'axdt': draw(_dt), 'skew': draw(_skew),
+            'caller': draw(_caller)}
 
 
 def oracle_rotate(case):
     import atomman as am
     T = case['T']
-    C6 = g.cij(T)
+    C6, mine, dt = _prepare(T, case.get('route', 'Cij'), case.get('dt'))
     labels = g.labels_of(T)
     w = np.linalg.eigvalsh(C6)
     cond = float(w[-1] / w[0])
     cmax = float(np.abs(C6).max())
-    R1, R2 = el.rotation_matrix(*case['R1']), el.rotation_matrix(*case['R2'])
+    R1, R2 = _rotmat(case['R1']), _rotmat(case['R2'])
+    for R in (case['R1'], case['R2']):
+        if R[0] == 'P':
+            labels.add('rot_exact_perm')
+        elif any(0 < abs(R[1] - a) < 0.011 for a in (0.0, 45.0, 60.0, 90.0, 120.0, 180.0)):
+            labels.add('rot_near_symmetry')
     exp1 = el.rotate_voigt(C6, R1)
     exp12 = el.rotate_voigt(C6, R2 @ R1)
     K = el.bond_matrix(R1)                       # second, independent route for my own reference
@@ -625,8 +1064,8 @@ def oracle_rotate(case):
         raise HarnessError('reference rotation: 4-index route and Bond-matrix route disagree')
     big = max(cmax, float(np.abs(exp1).max()), float(np.abs(exp12).max()))
     t1tol, t2tol = 1e-7 * big, 1e-6 * big
-    ec = _build(case, T, C6, mine_of(C6), case.get('route', 'Cij'), labels, 'object to rotate')
-    ax = lambda R: _axes(R, case['scale'], case.get('axform', case.get('aslist')), labels)
+    ec = _build(case, T, C6, mine, case.get('route', 'Cij'), labels, 'object to rotate', dt)
+    ax = lambda R: _axes(R, case['scale'], case.get('axform', case.get('aslist')), labels, case.get('axdt'), case.get('skew'))
     # identity
     _close(_transform(ec, ax(np.eye(3)), C6, 'transform(identity)').Cij, C6, t1tol, 'transform(identity)')
     # against my own tensor rotation
@@ -636,7 +1075,8 @@ def oracle_rotate(case):
     # documented option: relative threshold below which terms are identified as zero
     tol = case.get('tol')
     if tol is not None:
-        tt = _get(ec.transform(ax(R1), tol=tol), 'Cij', (6, 6))
+        # (axes without the 1e-13 ... 1e-10 skew here: tol may be smaller than what that skew does to an exact zero)
+        tt = _get(ec.transform(_axes(R1, case['scale'], case.get('axform', case.get('aslist')), labels, case.get('axdt')), tol=tol), 'Cij', (6, 6))
         e1max = float(np.abs(exp1).max())
         _close(tt, exp1, max(1e-7, 2 * tol) * big, 'transform(R1=%r, tol=%r) against my own R R R R C' % (case['R1'], tol))
         sure = np.abs(exp1) < 0.5 * tol * e1max
@@ -699,6 +1139,7 @@ _normsys = st.sampled_from(NORM_SYSTEMS + NORM_SYSTEMS + ('monoclinic',))
 
 
 _tols = st.sampled_from([None, None, [1e-4, 0.0], [1e-6, 1e-6], [1e-2, 1e-3], [0.0, 1e-4], [1e-7, 1e-7]])
+_norm_how = st.sampled_from(['Cij', 'named'])
 
 
 @st.composite
@@ -707,8 +1148,12 @@ def normalize_cases(draw):
     s = draw(_normsys)
     if T['kind'] == 'named' and T['system'] != 'monoclinic' and draw(st.integers(0, 2)) == 0:
         s = T['system']              # fixed point: the tensor is built from this system's constants
-    return {'T': T, 'system': s, 'how': draw(st.sampled_from(['Cij', 'named'])), 'pre': draw(pres()),
-            'route': draw(_route), 'inform': draw(_inform), 'form': draw(_formidx), 'num': draw(_num), 'tols': draw(_tols)}
+    how, route, dt = draw(_norm_how), draw(_route), draw(_dt)
+    if not (how == 'named' and T['kind'] == 'named'):
+        T = _fit(T, dt, 'Cij' if route == 'named' else route)
+    return {'T': T, 'system': s, 'how': how, 'pre': draw(pres()), 'dt': dt,
+            'route': route, 'inform': draw(_inform), 'form': draw(_formidx), 'num': draw(_num), 'tols': draw(_tols),
+            'caller': draw(_caller)}
 
 
 def _consts_from(system, C):
@@ -721,8 +1166,6 @@ def _consts_from(system, C):
 def oracle_normalize(case):
     import atomman as am
     T, s = case['T'], case['system']
-    C6 = g.cij(T)
-    cmax = float(np.abs(C6).max())
     labels = g.labels_of(T)
     labels.add('to_' + s)
     built_from = T['system'] if T['kind'] == 'named' else None
@@ -732,9 +1175,11 @@ def oracle_normalize(case):
         labels.add('built_named')
     elif route == 'named':
         route = 'Cij'
-    ec = _build(case, T, C6, mine_of(C6), route, labels, 'object to normalise')
+    C6, mine, dt = _prepare(T, route, case.get('dt'))
+    cmax = float(np.abs(C6).max())
+    ec = _build(case, T, C6, mine, route, labels, 'object to normalise', dt)
     try:
-        N = ec.normalized_as(s)
+        N = _track(ec.normalized_as(s), 'the object returned by normalized_as(%s)' % s, out=True)
     except ValueError as e:
         if s == 'monoclinic' and 'Invalid crystal_system' in str(e):
             _close(ec.Cij, C6, 1e-8 * cmax, 'operand after refused normalized_as')
@@ -747,7 +1192,7 @@ def oracle_normalize(case):
     if True:
         _close(NC, g.place(s, _consts_from(s, NC)), tol, 'normalized_as(%s) result against the %s placement of its own constants' % (s, s))
     # idempotent
-    N2 = N.normalized_as(s)
+    N2 = _track(N.normalized_as(s), 'the object returned by normalized_as(%s) applied twice' % s, out=True)
     _close(N2.Cij, NC, tol, 'normalized_as(%s) applied twice' % s)
     require(bool(N.is_normal(s)), lambda: 'is_normal(%s) is False on the result of normalized_as(%s)' % (s, s))
     # is_normal, both directions of its documented tolerance test (10x band around atol=rtol=1e-4)
@@ -794,7 +1239,10 @@ _nsteps = st.integers(2, 5)
 
 @st.composite
 def _steps(draw):
-    return {'T': draw(_step_T), 'route': draw(_route), 'inform': draw(_inform), 'form': draw(_formidx), 'num': draw(_num),
+    route, dt, T = draw(_route), draw(_dt), draw(_step_T)
+    if not isinstance(T, int):
+        T = _fit(T, dt, route)
+    return {'T': T, 'route': route, 'inform': draw(_inform), 'form': draw(_formidx), 'num': draw(_num), 'dt': dt,
             'look': draw(_touches), 'full': draw(_bool), 'order': draw(_order), 'scribble': draw(_scribble)}
 
 
@@ -802,7 +1250,7 @@ def _steps(draw):
 def history_cases(draw):
     n = draw(_nsteps)
     return {'empty': draw(_bool), 'look0': draw(_touches), 'steps': [draw(_steps()) for _ in range(n)],
-            'rot': draw(_rot), 'strain': draw(g.strains())}
+            'rot': draw(_rot), 'strain': draw(g.strains()), 'caller': draw(_caller)}
 
 
 def oracle_history(case):
@@ -832,11 +1280,10 @@ def oracle_history(case):
             T = seen[T % (len(seen) - 1)]                # a tensor the object held before the current one
             labels.add('back_to_earlier')
         seen.append(T)
-        C6 = g.cij(T)
-        mine = mine_of(C6)
+        C6, mine, dt = _prepare(T, step['route'], step.get('dt'))
         info = _info(C6, mine)
         what = 'definition %d of the same object' % (ndef + 1)
-        route, arg = _payload(T, C6, mine, step['route'], step['inform'], step['form'], step['num'], labels)
+        route, arg = _payload(T, C6, mine, step['route'], step['inform'], step['form'], step['num'], labels, dt)
         labels.add('route_' + (route if route in REPS or route == 'model' else 'named'))
         ec = _define(ec, route, arg, what)
         if looked and ndef > 0:
@@ -855,7 +1302,7 @@ def oracle_history(case):
                 seen[-1] = g.scaled_case(T, k)
     if C6 is None:
         return labels
-    R = el.rotation_matrix(*case['rot'])
+    R = _rotmat(case['rot'])
     exp = el.rotate_voigt(C6, R)
     big = max(float(np.abs(C6).max()), float(np.abs(exp).max()))
     tr = _transform(ec, np.array(R), exp, 'transform after %d definitions' % ndef)
